@@ -7,6 +7,8 @@ func init() {
 		ID:    "C07",
 		Title: "Each @component use renders the component file with its own arguments and slots",
 		Rules: []string{
+			"R-LOADALL: in the loader's loop a program is registered only after both linkers ran (must-pass-through), and a pass ends by registering, by failing or over the HasReserveStmt() edge",
+			"R-EMIT (empty slot by cases): Eval of a slot statement without a passed body, scope unknown, is the nil object",
 			"R-KEEP: a node a parse function returns is stored, passed on or returned on every path of its caller to a successful return",
 			"R-SLOTIDX: the placeholder lookup of package ast, by cases: named and default placeholders are found at their positions (position 0 included), other names are not found",
 			"R-WALK: a recursive walk of the parsed tree (the evaluator; a collector of components or inserts) that reads one parser-filled statement-holding field of a node type reads all of them (@each has a body and an @else)",
@@ -24,6 +26,8 @@ func init() {
 		NotDecided:  "TODO",
 		Assumptions: trustedBase,
 		Run: func(m *Model, s *Sink) {
+			m.RunLoadAll(s, "R-LOADALL")     // a page that uses a layout and components has both linked
+			m.RunSlotNilCase(s, "R-EMIT")    // a placeholder the caller passed nothing for renders nothing, whatever variables are visible
 			m.RunKeepParsed(s, "R-KEEP")     // every slot and body that was parsed is in the tree
 			m.RunSlotIndex(s, "R-SLOTIDX")   // a slot body goes to the placeholder of its name wherever it stands (also as the first statement)
 			m.RunWalk(s, "R-WALK")           // a walk that descends into a construct descends into all of it
